@@ -79,6 +79,8 @@ var AwkwardValues = []Awkward{
 	{"error", func() any { return errors.New("e") }},
 	{"time.Time", func() any { return time.Unix(0, 0) }},
 	{"UserOp{}", func() any { return UserOp{} }},
+	{"(*ComparisonOperator)(nil)", func() any { return (*stackage.ComparisonOperator)(nil) }},
+	{"(*UserOp)(nil)", func() any { return (*UserOp)(nil) }},
 	{"ComparisonOperator(0)", func() any { return stackage.ComparisonOperator(0) }},
 	{"ComparisonOperator(200)", func() any { return stackage.ComparisonOperator(200) }},
 	{"uintptr", func() any { return uintptr(7) }},
@@ -694,7 +696,7 @@ func init() {
 			c.Notes["any_methods"] = strings.Join(names, ",")
 		},
 		Rule: "index part (exhaustive): every Stack method with an int parameter (found by reflection) x index values {MinInt, MinInt+1, -Len-2..Len+2, MaxInt-1, MaxInt} (pairs for Swap/Less) x stacks of length 0..4 (quick) / 0..7 (thorough) (element 1 a nested stack) x 4 negative/forward index option sets x {capacity, none}; " +
-			"value part (exhaustive): every Stack/Condition method with an `any`/`...any` parameter (found by reflection) x a 55-entry catalogue of awkward values (untyped nil, typed nil pointers of depth 1-2 incl. to Stack/alias/Condition, zero Stack/Condition/aliases, funcs, chans, maps, NaN/Inf, private-field structs, slices/arrays, unsafe pointers ...), plus each value in four roles (pushed, inserted+replaced, condition expression/keyword, comparand pair). " +
+			"value part (exhaustive): every Stack/Condition method with an `any`/`...any` parameter (found by reflection) x a 57-entry catalogue of awkward values (untyped nil, typed nil pointers of depth 1-2 incl. to Stack/alias/Condition, zero Stack/Condition/aliases, funcs, chans, maps, NaN/Inf, private-field structs, slices/arrays, unsafe pointers ...), plus each value in four roles (pushed, inserted+replaced, condition expression/keyword, comparand pair). " +
 			"Oracle: no panic; list-model verdict for Index/Remove/Replace/Swap/Insert/Traverse (failure and a byte-identical recursive snapshot when the index addresses nothing; option-mapped targets otherwise); afterwards the configuration slot is intact and a 17-step observer/maintenance battery (Index*, String, Unmarshal, IsEqual(copy), Traverse, Less, Defrag, Reveal ...) returns normally. " +
 			"non-trivial = index case with at least one index outside 0..Len-1, or any value/role case that completed all checks; distinct = hash of the case tuple.",
 		Assumptions: []string{
